@@ -12,6 +12,11 @@ StuckAt == IF "STUCK" \in DOMAIN IOEnv THEN atoi(IOEnv.STUCK) ELSE 0
 
 FitsClock(own, budget) == budget >= 0 /\ budget <= own /\ (own > 0 => budget < own)
 
+\* the allocation as transcribed from the code (TimeCtl.tla ModelBudget); a mismatch is SPEC-DRIFT, no verdict
+Min2(a, b) == IF a <= b THEN a ELSE b
+Max2(a, b) == IF a >= b THEN a ELSE b
+ModelBudget(own, inc) == Min2((Max2(own - 5000, 0) \div 25) + inc, own \div 2)
+
 VARIABLES l, stm, memo     \* memo: set of [stm, own, inc, budget] observations
 vars == <<l, stm, memo>>
 TInit == l = 1 /\ stm = "w" /\ memo = {}
@@ -32,6 +37,7 @@ GoChecks(e) ==
 TGo == /\ IsEvent("go")
        /\ \A k \in DOMAIN GoChecks(Rec[l]) : GoChecks(Rec[l])[k]
        /\ memo' = memo \cup {Obs(Rec[l])}
+       /\ (IF Rec[l].budget = ModelBudget(Own(Rec[l]), Inc(Rec[l])) THEN TRUE ELSE PrintT(<<"DRIFT", l, Rec[l].text, Rec[l].budget>>))
        /\ UNCHANGED stm
 
 TNext == TSide \/ TGo
